@@ -101,12 +101,13 @@ def collect(outroot="/tmp"):
   except ImportError:
     NEEDS = {}
   rows = []
-  for pid in ["C%02d" % i for i in range(1, 21)]:
-    for k in (1, 2, 3):
-      src = os.path.join(outroot, "out_" + pid, str(k))
+  todo = [(pid, k, os.path.join(outroot, "out_" + pid, str(k)), "%s-%d" % (pid, k))
+          for pid in ["C%02d" % i for i in range(1, 21)] for k in (1, 2, 3)]
+  todo += [(pid, k, os.path.join(outroot, "out2_" + pid, str(k)), "%s-w2-%d" % (pid, k))
+           for pid in ["C%02d" % i for i in range(1, 21)] for k in (1, 2)]
+  for pid, k, src, name in todo:
       if not os.path.exists(os.path.join(src, "patch.diff")):
         continue
-      name = "%s-%d" % (pid, k)
       dst = os.path.join(VERIF, "seeded", name)
       def load(fn):
         try:
@@ -125,26 +126,34 @@ def collect(outroot="/tmp"):
         shutil.copy(os.path.join(src, "patch.orig.diff"), os.path.join(dst, "patch.as_written.diff"))
       q, t = load("check_quick.json"), load("check_thorough.json")
       det = "quick" if q and q.get("detected") else "thorough" if t and t.get("detected") else "MISSED"
+      by = pid
+      if det == "MISSED":
+        import glob
+        for other in sorted(glob.glob(os.path.join(src, "check_quick_C*.json"))):
+          o = load(os.path.basename(other))
+          if o and o.get("detected"):
+            det, q, by = "quick", o, o["check"]
+            break
       meta = {
           "property": pid, "change": name,
           "needs_to_manifest": NEEDS.get(name, "see notes.md"),
           "written_by": "independent sub-agent given only the property text and a scratch worktree",
           "verified": {"command": "seedtool.py verify <dir>", "demo_exit_on_HEAD": ver["demo_unpatched"]["rc"],
                        "demo_exit_with_patch": ver["demo_patched"]["rc"], "baseline_tests_passed_with_patch": ver["baseline_passed"]},
-          "detected_by": {"check": pid, "tier": det,
+          "detected_by": {"check": by, "tier": det,
                           "first_violation": (q if det == "quick" else t or {}).get("first", "")[:400] if det != "MISSED" else "",
                           "seconds": (q if det == "quick" else t or {}).get("secs")},
           "adapted": os.path.exists(os.path.join(src, "patch.orig.diff")) and "patch re-based onto a later fix: commit of /repo (patch.as_written.diff is the sub-agent's original)" or None,
       }
       with open(os.path.join(dst, "meta.json"), "w") as f:
         json.dump(meta, f, indent=1)
-      rows.append((name, det, meta["needs_to_manifest"], meta["detected_by"]["first_violation"]))
+      rows.append((name, "%s %s" % (by, det), meta["needs_to_manifest"], meta["detected_by"]["first_violation"]))
   with open(os.path.join(VERIF, "seeded", "SUMMARY.md"), "w") as f:
     f.write("# Seeded changes and the checks that catch them\n\n| change | caught by (tier) | needs | first violation reported |\n|---|---|---|---|\n")
     for name, det, needs, first in rows:
       first = first.split("#", 1)[-1].strip().replace("|", "/")[:160]
-      f.write("| %s | %s %s | %s | %s |\n" % (name, name[:3], det, needs.replace("|", "/"), first))
-  print("collected", len(rows), "missed:", [r[0] for r in rows if r[1] == "MISSED"])
+      f.write("| %s | %s | %s | %s |\n" % (name, det, needs.replace("|", "/"), first))
+  print("collected", len(rows), "missed:", [r[0] for r in rows if r[1].endswith("MISSED")])
 
 
 if __name__ == "__main__":
